@@ -1,0 +1,37 @@
+package envelope
+
+import (
+	"io"
+
+	"github.com/ipld/go-ipld-prime"
+	"github.com/ipld/go-ipld-prime/codec"
+	"github.com/ipld/go-ipld-prime/datamodel"
+)
+
+// errWriter remembers the first error returned by the wrapped io.Writer.
+type errWriter struct {
+	w   io.Writer
+	err error
+}
+
+func (w *errWriter) Write(p []byte) (int, error) {
+	if w.err != nil {
+		return 0, w.err
+	}
+	n, err := w.w.Write(p)
+	if err != nil {
+		w.err = err
+	}
+	return n, err
+}
+
+// EncodeStreaming is ipld.EncodeStreaming, except that an error of the
+// underlying io.Writer is always reported: some encoders (DAG-JSON) ignore
+// the result of their Write calls.
+func EncodeStreaming(w io.Writer, node datamodel.Node, encFn codec.Encoder) error {
+	ew := &errWriter{w: w}
+	if err := ipld.EncodeStreaming(ew, node, encFn); err != nil {
+		return err
+	}
+	return ew.err
+}
